@@ -486,6 +486,14 @@ func genC05(g *Gen, tier string, emit func(op string, args ...string)) {
 		if L > 0 && !g.Chance(1, 4) {
 			genuineAt = g.Intn(L)
 		}
+		// "never on their account when the budget is zero": long runs of bad datagrams (beyond any plausible
+		// built-in default), the genuine reply last
+		if c%8 == 7 {
+			maxErr = g.Pick(0, 0, -1)
+			skip = false
+			L = g.Pick(11, 12, 17, 33, 40)
+			genuineAt = L - 1
+		}
 		var hist [][]byte
 		for i := 0; i < L; i++ {
 			var d []byte
